@@ -152,7 +152,7 @@ fn is_heavy(case: &Value) -> bool {
         return false;
     }
     let f = case["source"]["file"].as_str().unwrap_or("");
-    std::fs::metadata(format!("{}/{}", crate::c11::corpus_dir(), f)).map(|m| m.len() > 400_000).unwrap_or(false)
+    crate::c11::file_cost(f) == 2
 }
 
 /// executions reaped as hangs so far (two are enough: the batch stops taking new runs)
